@@ -32,7 +32,7 @@ type OpeningSet struct {
 }
 
 var polyKinds = []string{"zero", "const", "unit", "sparse", "max", "lowdeg", "random", "random", "random", "u64", "limbedge", "small", "limbedge", "montedge"}
-var zPatterns = []string{"allequal", "alldistinct", "twofar", "random", "clustered", "everyindex", "random"}
+var zPatterns = []string{"allequal", "alldistinct", "twofar", "random", "clustered", "everyindex", "random", "descending"}
 
 func genLabel(r *Rng) string {
 	switch r.Intn(40) {
@@ -89,6 +89,8 @@ func GenOpeningSet(r *Rng, n int, maxPolys int) OpeningSet {
 			o.Z = zeq
 		case "alldistinct", "everyindex":
 			o.Z = uint8(i)
+		case "descending":
+			o.Z = uint8(255 - i%256)
 		case "twofar":
 			o.Z = []uint8{0, 255}[i%2]
 		case "clustered":
